@@ -183,6 +183,7 @@ type ContractFile struct {
 	Lemmas   []*Lemma
 	Props    []*PropertyDecl
 	Examples []*Example
+	Layouts  []*Layout
 }
 
 // ---------- lexer ----------
@@ -381,7 +382,7 @@ func (p *parser) ident() string {
 
 var declKeywords = map[string]bool{
 	"pure": true, "lemma": true, "auto": true, "func": true, "property": true,
-	"trusted": true, "example": true, "axiom": true, "uninterpreted": true, "ghost": true,
+	"trusted": true, "example": true, "axiom": true, "uninterpreted": true, "ghost": true, "layout": true,
 }
 var clauseKeywords = map[string]bool{
 	"requires": true, "ensures": true, "decreases": true, "modifies": true, "loop": true,
@@ -578,6 +579,8 @@ func (p *parser) decl(cf *ContractFile) {
 				it.Kind = "lemma"
 			} else if p.acceptId("example") {
 				it.Kind = "example"
+			} else if p.acceptId("layout") {
+				it.Kind = "layout"
 			}
 			if it.Kind == "func" {
 				it.Name = p.funcName()
@@ -594,6 +597,21 @@ func (p *parser) decl(cf *ContractFile) {
 			}
 		}
 		cf.Props = append(cf.Props, pd)
+	case "layout":
+		p.next()
+		l := &Layout{Type: p.ident(), Line: t.line}
+		for p.acceptId("field") {
+			k := p.next()
+			if k.kind != "str" {
+				p.fail("layout: expected the field key as a string")
+			}
+			lf := LayoutField{Key: k.s, Shape: p.ident(), Line: k.line}
+			if p.peek().kind == "id" && !declKeywords[p.peek().s] && p.peek().s != "field" {
+				lf.Arg = p.ident()
+			}
+			l.Fields = append(l.Fields, lf)
+		}
+		cf.Layouts = append(cf.Layouts, l)
 	case "example":
 		p.next()
 		ex := &Example{Name: p.ident()}
